@@ -28,7 +28,7 @@
 (*                 HREF="..." / ACTION="..." / href="..." without any escaping              *)
 (*   InfoLineRaw   the +INFO line (= plain Gopher menu line) carries names and selectors    *)
 (*                 raw: a file or directory name containing LF continues on a new line      *)
-(*   TitleTwice    WML card title and heading are escaped twice (harmless over-escaping)    *)
+(*   (TitleTwice, the double escaping of the WML card title, was repaired in /repo 26c9df2)  *)
 (*   GetUrlLiteralRaw  geturl() returns the rest of a `URL:...://` selector as it is and      *)
 (*                 renderdirstart / renderdirend paste it into HREF unescaped; unreachable  *)
 (*                 for real directories (a name cannot contain "/"): LiteralUnreachable     *)
@@ -125,8 +125,8 @@ SiteTab == [
   url_href        |-> S("dqattr", "esc"),      \*                  first link
   url_href2       |-> S("dqattr", "esc"),      \*                  second link
   url_text        |-> S("text", "esc"),        \*                  link text
-  wap_title       |-> S("dqattr", "escesc"),   \* TitleTwice
-  wap_b           |-> S("text", "escesc"),
+  wap_title       |-> S("dqattr", "esc"),      \* renderdirstart card title (escaped once since fix 26c9df2;
+  wap_b           |-> S("text", "esc"),        \*   before: "escesc", the harmless over-escaping TitleTwice)
   wap_href_local  |-> S("dqattr", "quote"),
   wap_href_url    |-> S("dqattr", HrefXf),      \* HrefRaw
   wap_href_host   |-> S("dqattr", HrefXf),      \* HrefRaw
